@@ -267,9 +267,11 @@ CLAIMED["C18"] = dict(
         "directory) and fails without touching the store otherwise; ensureParentDirecotryEntry succeeds for a level only if what is stored at that path is a directory "
         "(an existing entry must have the directory bit - any other mode, e.g. a symlink, is refused) and what it inserts is a directory entry for exactly that path, "
         "after the level above was ensured successfully; CreateEntry inserts only after the parents were ensured successfully; DeleteEntryMetaAndData removes a "
-        "directory entry only after the removal of its children succeeded (a refused non-recursive delete of a non-empty directory changes nothing).",
-   note="Guard obligations (order and arguments of calls), not a proof of the tree invariant over histories; the store implementations, transactions, rename (CanRename, "
-        "moveEntry) and the listing loop inside doBatchDeleteFolderMetaAndData (assumed not to modify the entry) are not decided here; memory safety of the abstracted "
+        "directory entry only after the removal of its children succeeded (a refused non-recursive delete of a non-empty directory changes nothing); "
+        "FilerServer.AtomicRenameEntry starts the move (opens the store transaction) only if the new path is not the old path and the new parent neither is the "
+        "renamed entry nor lies below it (util.FullPath.Child verified, path containment as util.IsPathInDir).",
+   note="Guard obligations (order and arguments of calls), not a proof of the tree invariant over histories; the store implementations, transactions, the move itself "
+        "(moveEntry: whole subtree, no loss or duplication) and the listing loop inside doBatchDeleteFolderMetaAndData (assumed not to modify the entry) are not decided here; memory safety of the abstracted "
         "functions is assumed. " + TRUST,
    design="DESIGN.md §4 C18")
 CLAIMED["C21"] = dict(
